@@ -1,6 +1,7 @@
 package run
 
 import (
+	"strings"
 	"time"
 	"encoding/json"
 	"fmt"
@@ -34,6 +35,36 @@ func Replay(path string) int {
 	tier := f.Tier
 	if tier == "" {
 		tier = "quick"
+	}
+	if strings.HasPrefix(f.Scenario, "M:") && c.MSpecs != nil {
+		for _, spec := range c.MSpecs(tier) {
+			if "M:"+spec.Name != f.Scenario {
+				continue
+			}
+			succ, _, ok, _ := spec.Expand(f.Schedule[:len(f.Schedule)-1], nil)
+			fmt.Printf("Mode M path (%d actions, replayed=%v):\n", len(f.Schedule), ok)
+			for i, a := range f.Schedule {
+				fmt.Printf("%3d   %s\n", i+1, a)
+			}
+			hit := false
+			for _, su := range succ {
+				if su.Action != f.Schedule[len(f.Schedule)-1] {
+					continue
+				}
+				for _, v := range su.Viol {
+					fmt.Printf("VERDICT %s %s: %s\n", v.Prop, v.Kind, v.Msg)
+					if (v.Prop == f.Prop && v.Kind == f.Kind) || v.Prop+":"+v.Kind == f.Kind {
+						hit = true
+					}
+				}
+			}
+			if hit {
+				fmt.Printf("VIOLATION property=%s replay=%s\n", f.Prop, path)
+				return 1
+			}
+			fmt.Println("replay did not reproduce the recorded violation")
+			return 0
+		}
 	}
 	sc := scenarioByName(c, tier, f.Scenario)
 	if sc == nil {
@@ -143,4 +174,16 @@ func RacePass(prop string, limit int) {
 		_ = x
 	}
 	fmt.Printf("race pass %s: %d free-running executions\n", prop, n)
+}
+
+// ScenarioByName looks a scenario up in a property's check.
+func ScenarioByName(prop, tier, name string) *mc.Scenario {
+	c := Registry[prop]
+	if c == nil || c.Scenarios == nil {
+		return nil
+	}
+	if tier == "" {
+		tier = "quick"
+	}
+	return scenarioByName(c, tier, name)
 }
